@@ -173,6 +173,46 @@ func runC09(w *World, r *Report) {
 		}
 	}
 
+	// a component's / Lambda's composableRunnable may be the executor of several graph nodes (the same *Lambda added
+	// twice, or to two graphs): compiling a node must not write its per-node data into that shared object
+	r.Rule("C09.node-compile-no-shared-write", "graphNode.compileIfNeeded writes meta / nodeInfo only into a runnable that belongs to this node's compilation (the nested graph's fresh result or a copy), never through graphNode.cr itself", 2)
+	{
+		cin := w.Fn("compose", "graphNode.compileIfNeeded")
+		fCr := w.Field("compose", "graphNode", "cr")
+		crT := w.Named("compose", "composableRunnable")
+		n := 0
+		for _, fw := range fieldWrites(cin) {
+			if fw.owner != crT {
+				continue
+			}
+			n++
+			shared := ""
+			var walk func(v ssa.Value, d int)
+			seen := map[ssa.Value]bool{}
+			walk = func(v ssa.Value, d int) {
+				if d > 6 || seen[v] || shared != "" {
+					return
+				}
+				seen[v] = true
+				switch x := v.(type) {
+				case *ssa.Phi:
+					for _, e := range x.Edges {
+						walk(e, d+1)
+					}
+				case *ssa.UnOp:
+					if isLoadOfField(x, fCr) {
+						shared = "the node's cr field (shared with every other node built from the same Lambda / component runnable)"
+					}
+				}
+			}
+			walk(fw.base, 0)
+			r.Check(shared == "", "C09.node-compile-no-shared-write", "compileIfNeeded sets composableRunnable."+fw.field.Name(), fw.in.Pos(), "written into the compilation's own runnable", "per-node data is written through "+shared+": with one *Lambda used for two nodes the node compiled last overwrites the other's node info (both report the same RunInfo), and re-compiling while an earlier runnable serves requests is a data race")
+		}
+		if n < 2 {
+			undecidedf("C09.node-compile-no-shared-write: %d writes of composableRunnable fields in compileIfNeeded (floor 2)", n)
+		}
+	}
+
 	r.Rule("C09.append-alias", "append on a slice held in a shared object is stored back to the same field or starts from a fresh slice", 1)
 	armedOwners := map[*types.Named]bool{}
 	for t := range compiled {
